@@ -13,6 +13,8 @@ pub enum Peer {
     Dag,
     /// any actor, including self (ask cycles possible)
     Any,
+    /// any other actor (longer cycles more likely)
+    Others,
 }
 
 #[derive(Clone, Debug)]
@@ -265,6 +267,14 @@ impl<'a> Gen<'a> {
                     }
                 }
                 Peer::Any => Some(self.ch.below(self.n_actors as u32) as usize),
+                Peer::Others => {
+                    if self.n_actors < 2 {
+                        Some(owner)
+                    } else {
+                        let k = self.ch.below(self.n_actors as u32 - 1) as usize;
+                        Some(if k >= owner { k + 1 } else { k })
+                    }
+                }
                 Peer::None => None,
             };
             if let Some(to) = tgt {
